@@ -309,6 +309,14 @@ class Shapes:
         args = t['args']
         if item == 'from_residual':
             return True
+        if item == 'custom' and 'ser::Error>::custom' in name:
+            # an Err built by the impl itself (serde derive emits it for `#[serde(skip)]` on a variant:
+            # "the enum variant X cannot be serialized"): the value on this path is not serialisable
+            msg = self.const_str(body, args[0]) if args else None
+            st['errors'].append('serialize returns Error::custom(%s)' % (repr(msg) if msg else '..'))
+            st['kind'] = 'error'
+            st['custom_error'] = True
+            return False
         if item in ('serialize_struct', 'serialize_map'):
             self.open_object(st, mode)
             return False
